@@ -63,8 +63,13 @@ def term_succs(t):
     return []
 
 
+import itertools
+_SERIAL = itertools.count(1)
+
+
 class Facts:
     def __init__(self, d):
+        self.serial = next(_SERIAL)   # cache key: id() can be reused after garbage collection
         self.d = d
         self.crate = d["crate"]
         self.bodies = [Body(b) for b in d["bodies"]]
@@ -92,6 +97,10 @@ class Facts:
             return b
         from .inline import inlined
         return inlined(self, b, t1='i' in self.view, t2='s' in self.view)
+
+    def cb(self, uid):
+        """Closure (or any) body by uid, in the current view."""
+        return self._v(self.by_uid.get(uid))
 
     def body(self, key):
         """Unique non-derived body with this canonical key (None when absent)."""
